@@ -64,17 +64,29 @@ func c42Check(c c42Case, r *evid.Rec) []evid.Disc {
 	}
 	got := fromMochi(&m, p.Version)
 	if d := refmqtt.Diff(p, got); d != "" {
-		return []evid.Disc{evid.D("C42-misreads-"+refmqtt.TypeName(p.Type)+form, "%s encoded as % x is read differently: %s", p, clip(enc), d)}
+		sig := "C42-misreads-" + refmqtt.TypeName(p.Type) + form
+		if zeroLengthOnly(d) {
+			sig = "C42-zero-length-property-read-as-absent"
+		}
+		return []evid.Disc{evid.D(sig, "%s encoded as % x is read differently: %s", p, clip(enc), d)}
 	}
 	return nil
 }
 
 func TestC42(t *testing.T) {
-	r := evid.New("C42", "rapid: client-to-server packets of every type x {3.1, 3.1.1, 5} from the reference encoder with a generated style: reason code and property length omitted wherever the specification allows (DISCONNECT/AUTH remaining length 0 and 1, acknowledgements 2 and 3), present-but-empty property block, properties in a generated permutation with user properties interleaved; oracle: mochi's read path yields the abstract packet the sender encoded; non-trivial = short form, or >=2 properties permuted, or >=2 filters; distinct by (shape, style)")
+	r := evid.New("C42", "rapid: client-to-server packets of every type x {3.1, 3.1.1, 5} from the reference encoder with a generated style: reason code and property length omitted wherever the specification allows (DISCONNECT/AUTH remaining length 0 and 1, acknowledgements 2 and 3), present-but-empty property block, properties in a generated permutation with user properties interleaved; fixed witnesses of zero-length properties; oracle: mochi's read path yields the abstract packet the sender encoded; non-trivial = short form, or >=2 properties permuted, or >=2 filters; distinct by (shape, style)")
 	defer r.Finish(t)
 	if evid.ReplayMode() {
 		evid.Replay(t, r, replayPath(), c42Check)
 		return
+	}
+	// witnesses of the listed finding (a property the sender includes with length 0)
+	for _, w := range [][]byte{
+		{0x30, 0x09, 0x00, 0x02, '0', '0', 0x03, 0x03, 0x00, 0x00, '0'}, // PUBLISH, Content Type ""
+		{0x30, 0x09, 0x00, 0x03, '0', '0', '0', 0x03, 0x09, 0x00, 0x00}, // PUBLISH, Correlation Data of length 0
+	} {
+		r.Eval()
+		evid.Witness(t, r, c42Case{Bytes: w, Version: 5}, c42Check)
 	}
 	// the short forms named in the statement, enumerated outright
 	for _, typ := range []byte{refmqtt.PUBACK, refmqtt.PUBREC, refmqtt.PUBREL, refmqtt.PUBCOMP, refmqtt.DISCONNECT, refmqtt.AUTH} {
